@@ -37,8 +37,9 @@ var (
 // realDir is a private directory with links to the real font files (fontconfig scans directories).
 func realDir() (string, error) {
 	fontDirOnce.Do(func() {
-		d, err := os.MkdirTemp("", "c11fonts")
-		if err != nil {
+		// one shared directory (not one per worker process: they were never removed)
+		d := filepath.Join(os.TempDir(), "c11fonts-shared")
+		if err := os.MkdirAll(d, 0o755); err != nil {
 			fontDirErr = err
 			return
 		}
@@ -47,7 +48,7 @@ func realDir() (string, error) {
 				fontDirErr = fmt.Errorf("real font missing: %v", err)
 				return
 			}
-			if err := os.Symlink(f, filepath.Join(d, filepath.Base(f))); err != nil {
+			if err := os.Symlink(f, filepath.Join(d, filepath.Base(f))); err != nil && !os.IsExist(err) {
 				fontDirErr = err
 				return
 			}
